@@ -21,6 +21,7 @@ where
     W: io::Write,
 {
     let header = header::StreamHeader::parse(input)?;
+    verif_ev!("xzhdr", header.stream_flags.check_method as u8);
 
     let mut records: Vec<Record> = vec![];
     let index_size = loop {
@@ -32,6 +33,7 @@ where
             lzma_info!("XZ records: {:?}", records);
             check_index(&mut count_input, &records)?;
             let index_size = count_input.count();
+            verif_ev!("xzindex", records.len(), index_size);
             break index_size;
         }
 
@@ -90,6 +92,7 @@ where
             "Unexpected data after last XZ block".to_string(),
         ));
     }
+    verif_ev!("xzend", index_size);
     Ok(())
 }
 
@@ -285,6 +288,15 @@ where
         unpacked_size: unpacked_size as u64,
     });
 
+    verif_ev!(
+        "xzblock",
+        header_size + 1,
+        count_input.count(),
+        padding_size,
+        unpacked_size,
+        block_header.packed_size.map_or(0, |x| x.wrapping_add(1)),
+        block_header.unpacked_size.map_or(0, |x| x.wrapping_add(1))
+    );
     let finished = false;
     Ok(finished)
 }
